@@ -26,6 +26,10 @@
 (*                       is caught in Type1FontHeaderParser.get_encoding)   *)
 (*   "Type3SkewWidth"    Type3 widths are scaled by a+c of FontMatrix       *)
 (*                       (apply_matrix_norm(m,(1,1))) instead of a          *)
+(*   "BuiltinStdIgnored" an embedded Type 1 program that declares           *)
+(*                       "/Encoding StandardEncoding def" (f.std) yields no *)
+(*                       dup/put entries, and the empty result replaces the *)
+(*                       table: every code loses its Unicode value          *)
 (* Reference semantics (declarative, from ISO 32000-1 9.6.6, 9.10.2, 9.2.4, *)
 (* 9.6.2/9.6.5 and the Type 1 font format): RefEncVal, RefText, RefWidth.   *)
 (* Invariants: DiffOverlayStep, DiffOverlay, Precedence, WidthRule on the   *)
@@ -85,7 +89,7 @@ RefEncDiff(f, diff, c) ==
 RefEncVal(f, c) ==
   IF UsesBuiltin(f)
   THEN LET J == {j \in 1..Len(f.ent) : f.ent[j].c = c} IN
-       IF J = {} THEN None
+       IF J = {} THEN (IF f.std THEN BaseTab(f)[c] ELSE None)     \* the program's own table: StandardEncoding or .notdef
        ELSE IF f.ent[Max(J)].g \in Mappable THEN GlyphV(f.ent[Max(J)].g) ELSE None
   ELSE RefEncDiff(f, f.diff, c)
 
@@ -123,7 +127,10 @@ Step(m, f, dev) ==
                                      THEN m.hit \cup {m.cur} ELSE m.hit]
     [] m.pc = "tu" ->
          [m EXCEPT !.umap = [c \in Codes |-> TuOf(f, c)], !.k = 0,
-                   !.enc = IF UsesBuiltin(f) THEN [c \in Codes |-> None] ELSE m.enc,
+                   !.enc = IF UsesBuiltin(f)
+                           THEN (IF f.std /\ "BuiltinStdIgnored" \notin dev THEN BaseTab(f) ELSE [c \in Codes |-> None])
+                           ELSE m.enc,
+                   !.hit = IF UsesBuiltin(f) /\ f.std /\ "BuiltinStdIgnored" \in dev THEN Codes ELSE m.hit,
                    !.pc = IF UsesBuiltin(f) THEN "builtin" ELSE "done"]
     [] m.pc = "builtin" ->
          IF m.k = Len(f.ent) THEN [m EXCEPT !.pc = "done"]
@@ -174,6 +181,9 @@ NoIntendedError == mi.err = "none"
 \* the as-coded machine differs only where a named deviation was taken
 DevLocal == Done => \A c \in Codes :
               (Text(mc, c) # Text(mi, c) \/ (font.kind # "Type3" /\ Width(mc, font, c) # Width(mi, font, c))) => c \in mc.hit
+\* NOT expected to hold while Dev is non-empty: TLC refutes the as-coded machine
+AsCodedPrecedence == Done => mc.err = "none" /\ \A c \in Codes : Text(mc, c) = RefText(font, c)
+AsCodedWidthRule == Done => \A c \in Codes : Width(mc, font, c) = RefWidth(font, c)
 DevScale == Done /\ mc.sc # mi.sc => font.kind = "Type3" /\ "Type3SkewWidth" \in Dev
 
 Emit == Done => PrintT("@@" \o ToJson([f |-> font, off |-> Off(font),
